@@ -413,6 +413,16 @@ func (vr *variableResolver) resolve(ctx *ExecutionContext) (*Value, error) {
 			return AsValue(nil), nil
 		}
 
+		// Check whether this is an interface and resolve it where required
+		// (first: a *Value may be what the interface holds - an entry of a
+		// map[string]any, an item of a []any)
+		if current.Kind() == reflect.Interface {
+			current = reflect.ValueOf(current.Interface())
+			if !current.IsValid() {
+				return AsValue(nil), nil
+			}
+		}
+
 		// If current is a reflect.ValueOf(pongo2.Value), then unpack it
 		// Happens in function calls (as a return value) or by injecting
 		// into the execution context (e.g. in a for-loop)
@@ -424,11 +434,9 @@ func (vr *variableResolver) resolve(ctx *ExecutionContext) (*Value, error) {
 			}
 			current = tmpValue.val
 			isSafe = tmpValue.safe
-		}
-
-		// Check whether this is an interface and resolve it where required
-		if current.Kind() == reflect.Interface {
-			current = reflect.ValueOf(current.Interface())
+			if !current.IsValid() {
+				return AsValue(nil), nil
+			}
 		}
 
 		// Check if the part is a function call
@@ -546,12 +554,13 @@ func (vr *variableResolver) resolve(ctx *ExecutionContext) (*Value, error) {
 				}
 			}
 
-			if rv.Type() != typeOfValuePtr {
-				current = reflect.ValueOf(rv.Interface())
-			} else {
+			// (what the result holds: a func() any may hand out a *Value as well)
+			current = reflect.ValueOf(rv.Interface())
+			if current.IsValid() && current.Type() == typeOfValuePtr {
 				// Return the function call value (a nil *Value is a nil value)
+				retValue := current.Interface().(*Value)
 				current = reflect.Value{}
-				if retValue := rv.Interface().(*Value); retValue != nil {
+				if retValue != nil {
 					current = retValue.val
 					isSafe = retValue.safe
 				}
